@@ -360,7 +360,21 @@ def r9_low_level_connection_is_driven_by_its_future(ctx):
         R.check(bool(awaited) and not spawned, "C04.R9", "ws::connect:connection-awaited-inline", "the connection task is awaited inside the future returned by ws::connect", "ws::connect hands the connection task to %s instead of awaiting it inside the returned future: dropping that future no longer ends the connection, so after a server-side disconnect the sink never reports closed and notifications keep being delivered" % (sorted({short(s.name()) for s in spawned}) or "something else"), where(c))
 
 
-RULES = [r1_typestate, r2_closed_check_first, r3_identity, r4_close_gating, r5_unsubscribe_key, r6_single_writer, r7_envelope_is_fresh, r8_sibling_registrars, r9_low_level_connection_is_driven_by_its_future, rflag_success_flag_matches_json]
+def r10_lossy_sends_are_the_api_only(ctx):
+    """`MethodSink::try_send` (drops the message when the connection queue is full) is reachable only through the public
+    SubscriptionSink::try_send, where the caller asked for exactly that; the library's own sends (responses, closing
+    notifications, rejections) use the waiting send"""
+    F, R = ctx.F, ctx.R
+    n = 0
+    for c in F.all_calls(r"server::(helpers::)?MethodSink::try_send$"):
+        if c.body.crate not in (CORE, SERVER) or is_test_body(c.body):
+            continue
+        n += 1
+        R.check(bool(re.search(r"^jsonrpsee_core::server::subscription::SubscriptionSink::try_send$", c.body.path)), "C04.R10", "try_send-caller:%s" % fkey(c.body), "MethodSink::try_send is used by SubscriptionSink::try_send", "%s sends on the connection queue with try_send: when the queue is full the message (a notification the handler produced, a closing value, a rejection) is silently dropped" % short(c.body.path), where(c))
+    R.floor("C04.R10", n, 1, "callers of MethodSink::try_send")
+
+
+RULES = [r1_typestate, r2_closed_check_first, r3_identity, r4_close_gating, r5_unsubscribe_key, r6_single_writer, r7_envelope_is_fresh, r8_sibling_registrars, r9_low_level_connection_is_driven_by_its_future, r10_lossy_sends_are_the_api_only, rflag_success_flag_matches_json]
 
 LEVEL_TEXT = (
     "Structural necessary conditions of the subscription notification contract decided from the type-checked program: "
